@@ -43,12 +43,25 @@ func c09Model(ea time.Duration) func(st *engine.Step) {
 				}
 			}
 		}
-		if u2 != "" && u2 != u {
-			// a login completed in this request: the idle clock starts now
+		if st.Pre.Truth.Flags["c09:await-first"] != "" && u != "" {
+			// first request after a login that does not fire EventAuth: the clock starts here
 			t.Times[c09Last] = now
+			delete(t.Flags, "c09:await-first")
+		}
+		if u2 != "" && u2 != u {
+			// a login completed in this request: the idle clock starts now ...
+			t.Times[c09Last] = now
+			delete(t.Flags, "c09:await-first")
+			if o.Req.Tag.Kind == "register" {
+				// ... except for logins that do not fire EventAuth (registration, OAuth2): the
+				// library stamps those at the first request through the middleware (DESIGN 7.13)
+				delete(t.Times, c09Last)
+				t.Flags["c09:await-first"] = "1"
+			}
 		}
 		if o.Req.Tag.Kind == "logout" || u2 == "" {
 			delete(t.Times, c09Last)
+			delete(t.Flags, "c09:await-first")
 		}
 	}
 }
@@ -149,7 +162,7 @@ func c09Scenarios(tier string) []engine.Scenario {
 		for _, wl := range wls {
 			sc := engine.Scenario{
 				Name: fmt.Sprintf("expire=%s,whitelist=%v", ea, wl), Depth: depth, Sat: 4 * ea,
-				Cfg: world.Config{Modules: []string{"expire", "auth", "totp2fa", "recovery", "logout"}, ExpireAfter: ea, Whitelist: wl},
+				Cfg: world.Config{Modules: []string{"expire", "auth", "register", "totp2fa", "recovery", "logout"}, ExpireAfter: ea, Whitelist: wl},
 				Init: func(s *world.Stack) *world.World {
 					w := world.NewWorld("B1")
 					flows.SeedAcct(s, w, flows.Acct{PID: U1, Password: P1})
@@ -166,6 +179,11 @@ func c09Scenarios(tier string) []engine.Scenario {
 				if w.Browsers[b].Session["totp_pending"] != "" {
 					code := flows.TOTPCode(w, flows.TOTPSecrets[1], 0)
 					a = append(a, flows.A("totp-validate(B1,totp:now)", func(s *world.Stack, _ *world.World) world.Req { return flows.TOTPValidate(s, b, code, "") }, ""))
+				}
+				if _, ok := w.DB.Users[U3]; !ok {
+					a = append(a, flows.A("register(B1,u3)", func(s *world.Stack, _ *world.World) world.Req {
+						return flows.Register(s, b, map[string]string{"email": U3, "password": P3, "confirm_password": P3})
+					}, U3))
 				}
 				a = append(a, simple("open(B1)", func(s *world.Stack) world.Req { return flows.Open(b) }))
 				a = append(a, simple("put(B1,theme)", func(s *world.Stack) world.Req { return flows.Put(b, "theme", "dark") }))
